@@ -10,7 +10,8 @@ func Percentage(total, current, width uint) float64 {
 	if current >= total {
 		return float64(width)
 	}
-	return float64(width*current) / float64(total)
+	// multiply as floats: width*current overflows uint for values near 1<<63
+	return float64(width) * float64(current) / float64(total)
 }
 
 // PercentageRound same as Percentage but with math.Round.
